@@ -327,4 +327,197 @@ theorem ready_obs (s : Svc) (w : Nat) : ReadyObs s w := by
     simp at ih ⊢
     grind
 
+
+def isRepoll : Evt → Bool
+  | .repoll .. => true
+  | .irepoll .. => true
+  | _ => false
+
+/-- waker identity carried by an event (leaf polls only) -/
+def evtWaker : Evt → Option Nat
+  | .polled _ w _ => some w
+  | .repoll _ w => some w
+  | .rdy _ w _ => some w
+  | .ipolled _ w _ => some w
+  | .irepoll _ w => some w
+  | _ => none
+
+theorem pollsLog_no_repoll (id : Nat) (r : Res) (p w : Nat) : ∀ e ∈ pollsLog id r p w, isRepoll e = false := by
+  induction p generalizing w with
+  | zero => simp [pollsLog, isRepoll]
+  | succ p ih => intro e he; simp [pollsLog] at he; rcases he with rfl | he; · rfl
+                 · exact ih _ e he
+
+theorem refLog_no_repoll (s : Svc) (req w : Nat) : ∀ e ∈ refLog s req w, isRepoll e = false := by
+  induction s generalizing req w with
+  | leaf id cp cok rp rok =>
+    intro e he; simp [refLog] at he; rcases he with rfl | he; · rfl
+    · exact pollsLog_no_repoll _ _ _ _ e he
+  | fnSvc id cok => intro e he; simp [refLog] at he; rcases he with rfl | rfl <;> rfl
+  | map s f ih =>
+    intro e he; simp only [refLog, List.mem_append] at he
+    rcases he with he | he
+    · exact ih _ _ e he
+    · split at he <;> simp at he; subst he; rfl
+  | mapErr s f ih =>
+    intro e he; simp only [refLog, List.mem_append] at he
+    rcases he with he | he
+    · exact ih _ _ e he
+    · split at he <;> simp at he; subst he; rfl
+  | andThen a b iha ihb =>
+    intro e he; simp only [refLog, List.mem_append] at he
+    rcases he with he | he
+    · exact iha _ _ e he
+    · split at he
+      · exact ihb _ _ e he
+      · simp at he
+  | applyFn s kind k ih =>
+    cases kind
+    · intro e he; simp only [refLog, List.mem_cons] at he
+      rcases he with rfl | he; · rfl
+      · exact ih _ _ e he
+    · intro e he; simp [refLog] at he; rcases he with rfl | rfl <;> rfl
+    · intro e he; simp only [refLog, List.mem_cons, List.mem_append] at he
+      rcases he with rfl | he | he; · rfl
+      · exact ih _ _ e he
+      · split at he <;> simp at he; subst he; rfl
+  | wrap wr s ih => intro e he; simp only [refLog] at he; exact ih _ _ e he
+  | mw s t ih =>
+    intro e he; simp only [refLog, List.mem_cons, List.mem_append] at he
+    rcases he with rfl | he | he; · rfl
+    · exact ih _ _ e he
+    · split at he <;> simp at he; subst he; rfl
+
+/-- ids of the stages (`leaf` and `fn_service`) of a service, left to right -/
+def stageIds : Svc → List Nat
+  | .leaf id _ _ _ _ => [id]
+  | .fnSvc id _ => [id]
+  | .map s _ => stageIds s
+  | .mapErr s _ => stageIds s
+  | .andThen a b => stageIds a ++ stageIds b
+  | .applyFn s _ _ => stageIds s
+  | .wrap _ s => stageIds s
+  | .mw s _ => stageIds s
+
+/-- number of `call`s of stage `i` in a log -/
+def calledCount (i : Nat) : List Evt → Nat
+  | [] => 0
+  | .called id _ :: l => (if id = i then 1 else 0) + calledCount i l
+  | _ :: l => calledCount i l
+
+theorem calledCount_append (i : Nat) (l1 l2 : List Evt) :
+    calledCount i (l1 ++ l2) = calledCount i l1 + calledCount i l2 := by
+  induction l1 with
+  | nil => simp [calledCount]
+  | cons e l ih => cases e <;> simp [calledCount, ih] <;> omega
+
+theorem calledCount_pollsLog (i id : Nat) (r : Res) (p w : Nat) : calledCount i (pollsLog id r p w) = 0 := by
+  induction p generalizing w with
+  | zero => simp [pollsLog, calledCount]
+  | succ p ih => simp [pollsLog, calledCount, ih]
+
+theorem refLog_stage_once (s : Svc) (req w i : Nat) :
+    calledCount i (refLog s req w) ≤ (stageIds s).count i := by
+  induction s generalizing req w with
+  | leaf id cp cok rp rok =>
+    simp only [refLog, calledCount, calledCount_pollsLog, stageIds, List.count_cons, List.count_nil]
+    split <;> simp_all
+  | fnSvc id cok =>
+    simp only [refLog, calledCount, stageIds, List.count_cons, List.count_nil]
+    split <;> simp_all
+  | map s f ih =>
+    have := ih req w
+    simp only [refLog, calledCount_append, stageIds]; split <;> simp [calledCount] <;> omega
+  | mapErr s f ih =>
+    have := ih req w
+    simp only [refLog, calledCount_append, stageIds]; split <;> simp [calledCount] <;> omega
+  | andThen a b iha ihb =>
+    have := iha req w
+    simp only [refLog, calledCount_append, stageIds, List.count_append]
+    split
+    · rename_i v _; have := ihb v (w + pendOf a req); omega
+    · simp [calledCount]; omega
+  | applyFn s kind k ih =>
+    cases kind
+    · have := ih (mapFn k req) w; simp only [refLog, calledCount, stageIds]; omega
+    · simp [refLog, calledCount]
+    · have := ih req w
+      simp only [refLog, calledCount, calledCount_append, stageIds]; split <;> simp [calledCount] <;> omega
+  | wrap wr s ih => have := ih req w; simpa only [refLog, stageIds] using this
+  | mw s t ih =>
+    have := ih req w
+    simp only [refLog, calledCount, calledCount_append, stageIds]; split <;> simp [calledCount] <;> omega
+
+theorem call_log_no_waker (s : Svc) (req : Nat) : ∀ e ∈ (call s req).2, evtWaker e = none := by
+  induction s generalizing req with
+  | leaf => simp [call, evtWaker]
+  | fnSvc => simp [call, evtWaker]
+  | map s f ih => simpa [call] using ih req
+  | mapErr s f ih => simpa [call] using ih req
+  | andThen a b iha ihb => simpa [call] using iha req
+  | applyFn s kind k ih =>
+    cases kind
+    · have := ih (mapFn k req); simp [call, evtWaker]; exact this
+    · simp [call, evtWaker]
+    · have := ih req; simp [call, evtWaker]; exact this
+  | wrap wr s ih => simpa [call] using ih req
+  | mw s t ih => have := ih req; simp [call, evtWaker]; exact this
+
+/-- one poll: Pending only if an inner leaf future answered Pending to *this* waker (or a finished
+leaf was polled again); every leaf poll of this poll carries the current waker -/
+def PollObs (fu : Fut) (w : Nat) : Prop :=
+  ((poll fu w).2.1 = none → ∃ id, Evt.polled id w none ∈ (poll fu w).2.2 ∨ Evt.repoll id w ∈ (poll fu w).2.2) ∧
+  (∀ e ∈ (poll fu w).2.2, evtWaker e = none ∨ evtWaker e = some w)
+
+theorem poll_obs (fu : Fut) (w : Nat) : PollObs fu w := by
+  fun_induction poll fu w
+  case case1 => simp [PollObs, poll, evtWaker]
+  case case2 => simp [PollObs, poll, evtWaker]
+  case case3 => simp [PollObs, poll, evtWaker]
+  case case15 =>
+    rename_i fu b w fu' v l hx fb' r l3 hpb ih1 ih2
+    have hc := call_log_no_waker b v
+    simp only [PollObs] at ih1 ih2 ⊢; rw [poll]; simp only [hx, hpb]; rw [hx] at ih1; rw [hpb] at ih2
+    simp at ih1 ih2 ⊢
+    grind
+  all_goals
+    rename_i hx ih
+    simp only [PollObs] at ih ⊢; rw [poll]; simp only [hx]; rw [hx] at ih
+    simp at ih ⊢
+    grind [evtWaker]
+
+
+/-- poll `poll_ready` (fresh waker each time) until it stops answering Pending -/
+def readyDrive : Nat → Svc → Nat → Svc × Rdy × Nat
+  | 0, s, w => (s, .pending, w)
+  | n+1, s, w =>
+    match pollReady s w with
+    | (s', .pending, _) => readyDrive n s' (w+1)
+    | (s', r, _) => (s', r, w)
+
+theorem readyDrive_spec (n : Nat) (s : Svc) (w : Nat) (hn : (rdyDen s).1 < n) :
+    (readyDrive n s w).2 = ((rdyDen s).2, w + (rdyDen s).1) := by
+  induction n generalizing s w with
+  | zero => omega
+  | succ n ih =>
+    have hs := ready_spec s w
+    have hne := rdyDen_ne_pending s
+    rw [readyDrive]
+    rcases hx : pollReady s w with ⟨s', r, l⟩
+    simp only [ReadySpec] at hs; rw [hx] at hs
+    by_cases h0 : (rdyDen s).1 = 0
+    · have h := hs.1 h0
+      simp at h
+      cases r with
+      | pending => exact absurd h.symm hne
+      | ok => simp [← h, h0]
+      | err e => simp [← h, h0]
+    · have h := hs.2.1 h0
+      simp at h
+      obtain ⟨h1, h2, h3⟩ := h
+      subst h1
+      simp only
+      rw [ih s' (w+1) (by omega)]
+      simp [h3]; omega
+
 end ActixNet.Service
